@@ -18,6 +18,10 @@ CHECKS = {
    "bounded-exhaustive enumeration of database states on a real SQLite engine; both exports are re-materialised on fresh engines and compared by atlas' differ and by an independent catalogue dump",
    "Every engine-valid state with <=2 (thorough <=3) features x 2 DDL spellings is created on a real engine; the HCL export is evaluated, diffed both ways and applied to an empty engine; the SQL export (dump-mode plan, default formatter, read back by the SQLite scanner) is executed on an empty engine and diffed both ways; both recreated catalogues must equal the original; two inspections must produce identical bytes.",
    "SQLite only; comparison normalises auto-index names, unique-index origin, column order."),
+ "C04": ("exploration",
+   "exhaustive enumeration of all foreign-key digraphs up to a size bound x table splits, planned by the real MySQL/PostgreSQL planners and replayed from statement text by a reference catalogue",
+   "All directed graphs with self loops over n<=3 tables (thorough: also all 65536 graphs on 4 tables) x every split of the tables into kept/created/dropped x edge modes between kept tables x {MySQL, PostgreSQL} x plan modes: the change set comes from the real differ, the plan from the real planner; a reference catalogue replays the statements from their text and requires: a table exists before any foreign key pointing at it is declared, no table is dropped while a foreign key of another table points at it, every table is created/dropped at most once, the final catalogue equals the desired one, and the planner neither fails, panics nor hangs.",
+   "n=4 covers all splits with added kept-kept edges only (stated in evidence); random larger graphs are not claimed."),
  "C05": ("exploration",
    "bounded-exhaustive enumeration of (populated current, desired) pairs executed on a real SQLite engine; rows read before/after by an independent connection",
    "The C01 pair space with the current database populated (3 rows per table, two NULL variants): after the real apply every row of the changed table is present and every surviving same-typed column holds the same value (NULL back-filled by a new NOT NULL DEFAULT excepted), untouched tables are byte-identical; a plan may fail only when a reference rule says the desired schema cannot hold the data.",
